@@ -226,7 +226,9 @@ CHECKS = {
  "C13": {
   "text": "Theorems (plain projection, integer ticks): the chords of the result are the target's, in order, for as long as the result lasts; "
           "every part of the window put on one chord lasts the window; for a source whose parts last their chords and target chords of "
-          "positive length the result lasts exactly min(source, target) (built on C12's window theorem, any misalignment of boundaries). "
+          "positive length the result lasts exactly min(source, target) (built on C12's window theorem, any misalignment of boundaries); "
+          "every note of the result is a source note with its written symbol and dynamics unchanged (possibly shortened), a continuation "
+          "or a rest - for all scores, no hypothesis. "
           "The projection model (windowing, put_on_same_chord with rests for absent parts, keep_score dictionary merge) is tied to "
           "Score.project_on_score(voice_leading=False) by correspondence; the oracle checks on the implementation: chords, duration, written "
           "symbols and rhythm kept (plain), rhythm kept (default voice-leading mode), sound kept exactly (keep_pitch), target parts retained (keep_score).",
